@@ -1115,6 +1115,8 @@ def run_suffix(ctx, fam):
     if ctx.prop == 'C09':
         log('[C09] design model check (linear suffix-array checker <=> definition, LCP check forms, on every text and EVERY permutation)')
         vlib.tlc_mc(ctx, 'SuffixEqMC.tla', 'SuffixEqMC_T.cfg' if t else 'SuffixEqMC.cfg', workers='16', timeout=1500)
+        log('[C09] stage model of the sort driver (DivSufSort.tla: classify, offsets, B* copy, induce B, induce A with their contracts)')
+        vlib.tlc_mc(ctx, 'DivSufSortMC.tla', 'DivSufSortMC_T.cfg' if t else 'DivSufSortMC.cfg', workers='16', timeout=1500)
         log('[C09] enumerating short texts (TLC) and structured texts (seeded)')
         ops = []
         for cfg in (['SuffixGen_bT.cfg', 'SuffixGen_tT.cfg'] if t else ['SuffixGen_b.cfg', 'SuffixGen_t.cfg']):
@@ -1125,6 +1127,9 @@ def run_suffix(ctx, fam):
             ops2.append(o)
             if len(o['t']) >= 3 and (t or i % 4 == 0):
                 ops2.append(dict(op='suffixcfg', t=o['t'], st=1 + i % 2, trst=1 + (i // 2) % 2))
+            # the arrays between the stages of the sort driver against DivSufSort.tla (informational, DRIFT09.stage*)
+            if len(o['t']) >= 3 and (t or i % 3 == 0):
+                ops2.append(dict(op='suffixstages', t=o['t']))
         scripts += chunk_suffix(ops2, 'suffix-enum', 400, ['tlc-enum'])
         scripts += vlib.go_gen(ctx, 'suffix', 1200 if t else 160, ctx.seed)
     else:
